@@ -24,5 +24,7 @@ def signature(f):
 def run(ctx):
     t = ctx.tier
     ctx.tlc("MC_Wire", "MC_Wire_values_" + t, replay="wire")
+    # containers whose element count lies at a step of the size prefix (31|32, 63|64, ...)
+    ctx.tlc("MC_Wire", "MC_Wire_big_" + t, replay="wire")
     n = 20000 if ctx.quick else 400000
     ctx.record_and_validate("wire", "Trace_Wire", ["n=%d" % n])
